@@ -244,8 +244,7 @@ example : mainLoop demo {} [s, s, s] = exabgpLines demo .up ++
 example : (specCmd demo .up 1 "2001:db8::1/128").med = some 101 ∧
     (specCmd demo .down 0 "x").community = some "65000:666" ∧
     (specCmd demo .disabled 0 "x").asPath = some "65009" := by decide
-/-- F14 as the model (= the code) has it: two neighbors give a selector the daemon does not parse
-    (`peer a, peer b …`; the daemon-side oracle of the harness shows the rejection). -/
-example : selector { demo with neighbors := ["10.0.0.1", "10.0.0.2"] } = "peer 10.0.0.1, peer 10.0.0.2" := by decide
+/-- F14 repaired: two neighbors give the bracket selector the daemon parses. -/
+example : selector { demo with neighbors := ["10.0.0.1", "10.0.0.2"] } = "peer [ 10.0.0.1 , 10.0.0.2 ]" := by decide
 
 end Exa.Props.C20
